@@ -61,11 +61,13 @@ fn case<R: KhRing>(ctx: &mut Ctx, rng: &mut Rng) where for<'x> &'x R: EucRingOps
     let cfg = if rng.chance(3, 5) { BuildCfg::default_cfg() } else {
         let order = if rng.chance(2, 3) { Some(if rng.chance(1, 4) { (0..n).rev().collect() } else { rng.perm(n) }) } else { None };
         let (ad, ae) = if n <= 6 { (rng.chance(3, 4), rng.chance(3, 4)) } else { (rng.chance(3, 4), true) };
-        BuildCfg { order, auto_deloop: ad, auto_elim: ae }
+        // a third of the non-default builds are divide-and-conquer: two halves glued by TngComplex::connect
+        let split = if n >= 2 && rng.chance(1, 3) { Some(rng.urange(1, n - 1)) } else { None };
+        BuildCfg { order, auto_deloop: ad, auto_elim: ae, split }
     };
     let nthreads = *rng.choose(&[1usize, 2, 4, 16]);
     let base = if reduced { pd.x.first().map(|c| *c.iter().min().unwrap()) } else { None };
-    let conf = json!({"ring": rname, "origin": origin, "h": h, "t": t, "reduced": reduced, "order": cfg.order, "auto_deloop": cfg.auto_deloop, "auto_elim": cfg.auto_elim, "threads": nthreads});
+    let conf = json!({"ring": rname, "origin": origin, "h": h, "t": t, "reduced": reduced, "order": cfg.order, "auto_deloop": cfg.auto_deloop, "auto_elim": cfg.auto_elim, "split": cfg.split, "threads": nthreads});
     let wit = |extra: serde_json::Value| json!({"config": conf, "pd": pd.x, "switched": pd.neg, "detail": extra});
     if ctx.replaying() { eprintln!("replaying: {} pd={:?} switched={:?}", conf, pd.x, pd.neg) }
 
@@ -139,7 +141,8 @@ fn case<R: KhRing>(ctx: &mut Ctx, rng: &mut Rng) where for<'x> &'x R: EucRingOps
     let nt = n >= 3 || pd.components().len() >= 2 || (h, t) != (0, 0);
     ctx.ok(&class, nt, hash_of(&(&pd.x, &pd.neg, h, t, reduced, &cfg.order, cfg.auto_deloop, cfg.auto_elim, nthreads)));
     ctx.count(&format!("ht/{h},{t}"), 1);
-    if cfg.order.is_some() || !cfg.auto_deloop || !cfg.auto_elim { ctx.count("non_default_build_configs", 1) }
+    if cfg.order.is_some() || !cfg.auto_deloop || !cfg.auto_elim || cfg.split.is_some() { ctx.count("non_default_build_configs", 1) }
+    if cfg.split.is_some() { ctx.count("divide_and_conquer_builds", 1) }
     if ctx.want_sample(&class) { ctx.sample(&class, json!({"config": conf, "pd": pd.x, "homology": tot})) }
 }
 
